@@ -102,7 +102,8 @@ let dump_case ~tag (dbs : database list) =
   let a = dump_args dbs in
   text ~fn:"DumpToSQL" ~tag (x_DumpToSQL now_t dbs) a;
   emit ~fn:"DumpToSQL.lex" ~tag ~s:(if List.for_all db_named dbs then c_toklist (x_dump_tokens now_t dbs) else "-") ~m:(c_toks ~us:true (lex_all (s_dumpToSQL now_t dbs))) a;
-  text ~fn:"DumpToCSV" ~tag (x_DumpToCSV dbs) a
+  text ~fn:"DumpToCSV" ~tag (x_DumpToCSV dbs) a;
+  text ~fn:"WriteCSVFile" ~tag (x_DumpToCSV dbs) a
 
 let lexcheck ~tag (t : string) = let r = c_toks (lex_all (bos t)) in emit ~fn:"LexCheck" ~tag ~s:r ~m:r [ hexf (bos t) ]
 let csvcheck ~tag (t : string) = let r = c_csvopt (csv_read (bos t)) in emit ~fn:"CsvCheck" ~tag ~s:r ~m:r [ hexf (bos t) ]
